@@ -202,14 +202,16 @@ def check_case(case):
                 terms.append((c12 * f1, comb("g1", interp_integral(b, xi, lambda u: 1.0 / (u * u)))))
                 if mode == 3:
                     terms.append((c12 * f2, comb("g1", interp_integral(b, xi, lambda u: math.log(u / xi) / (u * u)))))
+        # floor: bare tensors that are themselves rounding residue (1e-16 of the LO weights) carry no information
+        floor = sum(abs(c) for c, _ in terms) * run.noise_floor(*[t for _, t in terms], got) + 1e-18
         for key in got:
             exp = sum(c * t[key] for c, t in terms)
             s = sum(abs(c) * run.maxabs(t[key]) for c, t in terms)
             d = run.maxabs(got[key] - exp)
             # quadrature over the interpolant: yadism's border cut (1e-10 relative to the range [xi,1]) matters for xi -> 1
             rtol = 1e-6 + 4e-9 / (1.0 - xi)
-            v.metric(f"formula:{kind}:mode{mode}", d / (rtol * s + 1e-300))
-            if not d <= rtol * s + 1e-300:
+            v.metric(f"formula:{kind}:mode{mode}", d / (rtol * s + floor))
+            if not d <= rtol * s + floor:
                 v.fail(
                     f"C10:formula:{kind}:mode{mode}",
                     f"{name} ({meta['process']}, {meta['scheme']}, PTO {th['PTO']}) TMC={mode} x={x!r} Q2={q2!r} M={m}: key {key} differs from the published formula by {d:.3e} "
